@@ -852,3 +852,44 @@ Proof.
       destruct (release_spec (d_files st) (w_file wr) Hfo Hfs) as (_ & _ & Hle). auto. }
   destruct Hgoal as [Hp Hle]. split; [assumption|]. apply readable_le; assumption.
 Qed.
+
+(* ------------------------------------------------------------------ decidable legality *)
+Definition op_in_rangeb (o : op) : bool :=
+  match o with
+  | Open _ s e _ => ts_in_rangeb s && ts_in_rangeb e
+  | Commit _ e _ => ts_in_rangeb e
+  | Delete a b => ts_in_rangeb a && ts_in_rangeb b
+  | Write _ _ | Close _ => true
+  end.
+Definition legalb (st : db) (o : op) : bool :=
+  op_in_rangeb o &&
+  match o with
+  | Write w d =>
+      match d_writers st !! w with
+      | Some wr => match get_file (d_files st) (w_file wr) with
+                   | Some f => (f_size f + N.of_nat (length d) <? 2 ^ 32)%N
+                   | None => true
+                   end
+      | None => true
+      end
+  | _ => true
+  end.
+Fixpoint legal_runb (st : db) (ops : list op) : bool :=
+  match ops with
+  | [] => true
+  | o :: rest => legalb st o && legal_runb (fst (step st o)) rest
+  end.
+
+Lemma legalb_sound st o : legalb st o = true -> legal st o.
+Proof.
+  unfold legalb, legal. rewrite andb_true_iff. intros [Hr Hw]. split.
+  - destruct o; simpl in *; try exact I;
+      repeat rewrite andb_true_iff in Hr; repeat rewrite ts_in_rangeb_spec in Hr; assumption.
+  - destruct o; try exact I. intros wr f Hwr Hf. rewrite Hwr, Hf in Hw. apply N.ltb_lt. assumption.
+Qed.
+
+Lemma legal_runb_sound : forall ops st, legal_runb st ops = true -> legal_run st ops.
+Proof.
+  induction ops as [|o rest IH]; intros st H; simpl in *; [exact I|].
+  apply andb_true_iff in H. destruct H as [H1 H2]. split; [apply legalb_sound; assumption|apply IH; assumption].
+Qed.
